@@ -275,7 +275,6 @@ Definition ints (l : list Z) : value := VList (map VInt l).
 Definition deviation_witnesses : list (string * list value) := [
   ("~{~A~^,~}", [ints [1; 2; 3]]);                                   (* caret *)
   ("~A~^ more", [VInt 1]);
-  ("~D", [VStr (tx "abc")]);                                          (* non-integer printed with escapes *)
   ("~&x", []);                                                        (* fresh line at the start of the output *)
   ("~%~{~&~A~}", [ints [1]]);                                         (* ... and inside a block *)
   ("abc~{~5T~A~}", [ints [1]]);                                       (* column inside a block *)
@@ -297,7 +296,6 @@ Proof. vm_compute. reflexivity. Qed.
 (* what the model and the specification say for some of them *)
 Definition deviation_table : list ((string * list value) * (outcome * outcome)) := [
   (("~{~A~^,~}", [ints [1; 2; 3]]), (OText (tx "1,"), OText (tx "1,2,3")));
-  (("~D", [VStr (tx "abc")]), (OText (tx """abc"""), OText (tx "abc")));
   (("abc~2,4T|", []), (OText (tx "abc     |"), OText (tx "abc   |")));
   (("~:*~A", [VInt 1]), (OText (tx "nil"), OError));
   (("~{~A~}}", [ints [1]]), (OText (tx "1"), OText (tx "1}")))
@@ -357,6 +355,39 @@ Proof.
   destruct (get_chr_single _ _ _ _ Ep) as [p ->]. destruct (get_chr_single _ _ _ _ Ec) as [cm ->].
   cbn [hd]. rewrite go_int_text_is_render_int by (try assumption; lia).
   rewrite text_eqb_refl. reflexivity.
+Qed.
+(* ... and of anything else: an argument that is not an integer is written as by ~A, padded on the left
+   (repo_fixes/C15-13; it used to be written with escapes) *)
+Lemma go_int_text_other : forall base mincol pad comma k colon at_ v, (forall z, v <> VInt z) ->
+  go_int_text base mincol [pad] [comma] k colon at_ v = pad_left mincol pad (princ v).
+Proof.
+  intros base mincol pad comma k colon at_ v Hv. unfold go_int_text, pad_left.
+  destruct v as [z| | | | | |]; try (exfalso; exact (Hv z eq_refl));
+    cbn [negb andb]; rewrite andb_false_r;
+    (destruct (Nat.ltb (List.length _) mincol) eqn:E;
+     [rewrite repeat_text_single; reflexivity
+     | apply Nat.ltb_ge in E; replace (mincol - List.length _) with 0 by lia; reflexivity]).
+Qed.
+Theorem integer_site_coincides_any : forall base off colon at_ ps c, (2 <= base <= 36)%N ->
+  dir_int true base off colon at_ ps c = dir_int false base off colon at_ ps c.
+Proof.
+  intros base off colon at_ ps c Hb. unfold dir_int.
+  destruct (take_arg c) as [[v c1]| | |]; try reflexivity.
+  destruct (get_int off ps 0 true) as [mincol| |]; try reflexivity.
+  destruct (get_chr (off + 1) ps [sp]) as [padchar|] eqn:Ep; try reflexivity.
+  destruct (get_chr (off + 2) ps [","%char]) as [commachar|] eqn:Ec; try reflexivity.
+  destruct (get_int (off + 3) ps 3 true) as [commaint| |]; try reflexivity.
+  destruct (commaint <? 1)%Z eqn:Ek; [reflexivity|]. apply Z.ltb_ge in Ek.
+  destruct (get_chr_single _ _ _ _ Ep) as [p ->]. destruct (get_chr_single _ _ _ _ Ec) as [cm ->].
+  cbn [hd].
+  assert (E : go_int_text base (Z.to_nat mincol) [p] [cm] (Z.to_nat commaint) colon at_ v =
+              match v with
+              | VInt z => render_int base (Z.to_nat mincol) p cm (Z.to_nat commaint) colon at_ z
+              | _ => pad_left (Z.to_nat mincol) p (princ v)
+              end).
+  { destruct v as [z| | | | | |]; try (apply go_int_text_other; intros z0 E0; discriminate).
+    apply go_int_text_is_render_int; [assumption | lia]. }
+  rewrite E, text_eqb_refl. reflexivity.
 Qed.
 (* ~@R and ~:@R of 1..3999 (tables as in the source): same result, no taint added *)
 Theorem roman_site_coincides : forall colon c z, (1 <= z <= 3999)%Z -> arg_at c = Some (VInt z) ->
